@@ -9,10 +9,10 @@ import (
 	"strings"
 
 	"github.com/chrislusf/seaweedfs/weed/sequence"
-	"github.com/chrislusf/seaweedfs/weed/util/fla9"
 	"github.com/chrislusf/seaweedfs/weed/storage/super_block"
 	"github.com/chrislusf/seaweedfs/weed/storage/types"
 	"github.com/chrislusf/seaweedfs/weed/topology"
+	"github.com/chrislusf/seaweedfs/weed/util/fla9"
 	"verifharness/hx"
 )
 
@@ -205,9 +205,9 @@ func coqTopo(topo *topology.Topology) string {
 }
 
 type optSpec struct {
-	rp               string
-	disk             string
-	dc, rack, node   string
+	rp             string
+	disk           string
+	dc, rack, node string
 }
 
 func genOpt(r *hx.Rng, t topoSpec, rp string) optSpec {
